@@ -474,6 +474,9 @@ func TestRun(t *testing.T) {
 	if rec.NViolations() <= 12 {
 		responseDuplicates(rec, vr.Scale(100, 3000))
 	}
+	if rec.NViolations() <= 12 {
+		serverDuplicates(rec, vr.Scale(32, 320))
+	}
 	rec.Assume("t0 (the instant the reply is cached) lies in [time before the first copy was injected, time after the last reply was observed]; sweeps are placed 1 s outside that bracket +/- 247 s")
 	rec.Assume("a non-confirmable request for which no reply was produced is outside the statement (its duplicates may run the handler again)")
 }
